@@ -243,3 +243,45 @@ def self_nested(v, depth, limit=4):
             found += 1
             if found >= limit:
                 return
+
+
+SCT_LIST_OID = bytes.fromhex('060a2b06010401d679020402')
+
+
+def der_directed(v, budget=16):
+    """Malformations of the DER structures inside a vector (an X.509 certificate in an SSH host key) that single random
+    byte changes reach once in hundreds: an object identifier with one arc changed (an algorithm, attribute or extension that
+    is not known), a large INTEGER with its sign octet turned into 0x80 (a modulus that is not positive) or zeroed out, and
+    the length fields of a signed certificate timestamp list.  Deterministic; spread over the whole vector up to the budget."""
+    if b'\x30\x82' not in v:
+        return []
+    out = []
+    oids, ints = [], []
+    for i in range(len(v) - 4):
+        if v[i] == 0x06 and 3 <= v[i + 1] <= 12 and i + 2 + v[i + 1] <= len(v) and v[i + 2] in (0x2a, 0x2b, 0x55, 0x60, 0x67):
+            oids.append(i)
+        if v[i] == 0x02 and v[i + 1] == 0x82 and v[i + 4] == 0 and (v[i + 2] << 8 | v[i + 3]) >= 64:
+            ints.append(i)
+    for i in ints[:2]:
+        out.append(v[:i + 4] + b'\x80' + v[i + 5:])
+        n = v[i + 2] << 8 | v[i + 3]
+        out.append(v[:i + 4] + bytes(n) + v[i + 4 + n:])
+        out.append(v[:i + 4] + bytes(n - 1) + b'\x01' + v[i + 4 + n:])
+    j = v.find(SCT_LIST_OID)
+    if j >= 0:
+        k = j + len(SCT_LIST_OID)
+        for _ in range(2):                      # the two OCTET STRING headers around the list
+            if k < len(v) and v[k] == 0x04:
+                k += 2 + (v[k + 1] & 0x7f if v[k + 1] & 0x80 else 0)
+        for d in range(4):
+            if k + d < len(v):
+                out.append(v[:k + d] + bytes([v[k + d] ^ 1]) + v[k + d + 1:])
+                out.append(v[:k + d] + b'\xff' + v[k + d + 1:])
+    # identifiers: the last ones first (the signature algorithm closes a certificate), then the rest evenly
+    step = max(1, len(oids) // max(1, budget - len(out)))
+    for i in (oids[-2:] + oids[:-2][::step]):
+        last = i + 1 + v[i + 1]
+        out.append(v[:last] + bytes([(v[last] + 1) & 0x7f]) + v[last + 1:])
+        mid = i + 2 + v[i + 1] // 2
+        out.append(v[:mid] + bytes([v[mid] ^ 2]) + v[mid + 1:])
+    return out[:max(budget, 14)]
